@@ -19,6 +19,7 @@ func init() {
 		Explanation: "Decided (structural necessary conditions, package fscache): R1 the remote filespace (field remoteFS, followed through helpers) is the receiver of a mutating Filespace method, or the destination of StreamCopy / a Copier / fshelper.Copy, only inside Commit (expected count elsewhere: 0; the rule must match the >= 4 uses inside Commit on every run); R2 every journal map that some method writes is ranged over in Commit and its loop applies the matching remote operation to the ranged path; R3 in Commit every error of a remote operation is returned and no loop iteration continues after a failed one; R4 in every mutating Cache method, each path that mutates the buffer also calls the matching journal recorder with the same path, and every return that can be a success has passed the recorder (a mutation is never skipped because a read-through query says it is unnecessary); R5 the four journal maps are accessed only under their own mutex; R6 the stream copy Commit uses for written files tests and returns the errors of io.Copy and of closing the remote writer (a remote failure during Commit is reported). " +
 			"Added in round 2: R6 covers fshelper.Copier.copyFile too (used by Cache.Copy) and requires the destination writer to be opened only after the source reader could be opened; R7 every possibly-nil return of Commit follows the loops over all journals — a 'nothing changed' skip is accepted only if its flag is armed again on every failing exit after it was cleared (else the Commit after a failed one is a successful no-op); R8 the module's own backends replace content at open time (same rules as C04.R1/R2): Commit pushes files with remote.Writer + io.Copy, and io.Copy never calls Write for an empty source. " +
 			"Added in round 5: R2 also requires that no branch of a replay loop depends (by operators only) on the value stored with the journal entry — the journals are sets, a per-entry flag cleared by an earlier Commit makes a later Commit skip an entry that a replayed Remove/RemoveAll has made necessary again; R9 a pending change is never matched by a bare string prefix (HasPrefix(p, dir) without the separator also matches the sibling 'dirx/...'; same rule as C02.R8). " +
+			"Added in round 6: R2 also requires that no replay branch depends on what another journal holds for the ranged path (entries are never retracted and carry no order); R5 gives a function literal that is only run synchronously under its creator's lock (called directly, or handed to a helper that only calls it) the creator's lockset. " +
 			"NOT decided — and known to fail on some histories, which this family cannot see (DESIGN.md §6): equality of the committed tree with direct application (directory copies journal only the root and are dropped by the file-only replay, Remove of a remote empty directory is filtered by the file-only test, the four journals are replayed in a fixed order regardless of operation order, recovery by a second Commit).",
 	})
 }
